@@ -42,6 +42,11 @@ def build_funcs():
     add(Fn("curvature", lambda r: xs.curvature(r[0])))
     add(Fn("hillshade", lambda r: xs.hillshade(r[0])))
     add(Fn("focal.mean", lambda r: focal.mean(r[0], passes=2)))
+    # degenerate parameterisations (zero-iteration / identity paths, where "no work" must still mean "fresh output")
+    add(Fn("focal.mean[passes=0]", lambda r: focal.mean(r[0], passes=0)))
+    add(Fn("focal.mean[passes=1]", lambda r: focal.mean(r[0], passes=1, excludes=[0.0])))
+    add(Fn("focal.apply[1x1]", lambda r: focal.apply(r[0], np.ones((1, 1)))))
+    add(Fn("convolution_2d[1x1]", lambda r: convolution.convolution_2d(r[0], np.ones((1, 1)))))
     add(Fn("focal.apply", lambda r: focal.apply(r[0], k35, _sumsq)))
     add(Fn("focal.focal_stats", lambda r: focal.focal_stats(r[0], k33), identity="own"))
     add(Fn("focal.hotspots", lambda r: focal.hotspots(r[0], k33), identity="hotspots"))
@@ -61,6 +66,9 @@ def build_funcs():
     add(Fn("direction", lambda r: xs.direction(r[0], max_distance=2.5), needs="yx", heavy=True))
     add(Fn("a_star_search", lambda r: xs.a_star_search(r[0], (float(r[0]["y"][0]), float(r[0]["x"][0])),
                                                        (float(r[0]["y"][-1]), float(r[0]["x"][-1])), barriers=[0]),
+           dask=False, needs="yx"))
+    add(Fn("a_star_search[start=goal]", lambda r: xs.a_star_search(r[0], (float(r[0]["y"][1]), float(r[0]["x"][1])),
+                                                                   (float(r[0]["y"][1]), float(r[0]["x"][1])), barriers=[]),
            dask=False, needs="yx"))
     add(Fn("viewshed", lambda r: xs.viewshed(r[0], x=float(r[0]["x"][1]), y=float(r[0]["y"][1]), observer_elev=2),
            dask=False, identity="dtypewiden", needs="yx", heavy=True))
